@@ -575,8 +575,8 @@ func (c *SpecCtx) call(x *ast.CallExpr) SpecVal {
 			return SpecVal{T: app("sl-len", v.T), Typ: intType, Sort: "Int"}
 		case "Int":
 			if v.Typ != nil {
-				if _, ok := v.Typ.Underlying().(*types.Map); ok {
-					return SpecVal{T: ft.mapLen(c.st, v.T), Typ: intType, Sort: "Int"}
+				if mt, ok := v.Typ.Underlying().(*types.Map); ok {
+					return SpecVal{T: ft.mapLen(c.st, v.T, mt), Typ: intType, Sort: "Int"}
 				}
 			}
 		}
